@@ -30,7 +30,10 @@ func (i *interpreter) domain(fr *frame) int {
 }
 
 func (i *interpreter) sharedEvent(fr *frame, what string, owner, me int, instr ssa.Instruction) {
-	line := i.prog.Fset.Position(instr.Pos()).Line
+	line := 0
+	if instr != nil {
+		line = i.prog.Fset.Position(instr.Pos()).Line
+	}
 	site := fmt.Sprintf("shared-state@%s", fr.fn.String())
 	i.event("race", site, fmt.Sprintf("%s written by query domain %d is accessed by domain %d in %s (line %d)", what, owner, me, fr.fn.String(), line))
 	panic(pathAbort{kind: abortEvent, msg: "state shared between queries: " + site})
